@@ -41,6 +41,8 @@ pub struct CompRun {
     pub direct_write: bool,
     pub flush_points: Vec<FlushPoint>,
     pub consumed: usize,
+    /// every call: (flush value requested, input consumed in total after the call)
+    pub call_log: Vec<(u8, usize)>,
 }
 
 pub fn mz_of_tdefl(v: u8) -> MZFlush {
@@ -162,6 +164,7 @@ pub fn drive_compress(c: &mut CompressorOxide, data: &[u8], sched: &Schedule, dr
         }
         run.calls += 1;
         pos += consumed;
+        run.call_log.push((fl, pos));
         if fl != 0 && fl != 4 {
             run.mid_flush = true;
             let qualifies = prev_left_space && consumed == chunk.len() && !full;
